@@ -478,10 +478,10 @@ var prDedicated = []string{
 
 func init() {
 	core.Register(&core.Engine{
-		ID:        "C05",
-		Level:     "exploration",
-		Technique: "runtime monitoring: metamorphic round trip — the tree of an accepted generated program is printed under each of the 256 Configs, the printed bytes are re-read by the real parser, and the normalised skeleton and here-document bodies are compared with the original",
-		Rule:      "a case is an accepted program (generator-derived and confirmed by its expected tree, in single-line and multi-line layouts, with here-documents inside every compound construct; plus 47 dedicated sources: nested subshells, here-documents in conditions/bodies/case items/functions/pipelines/command substitutions, & before then/do, for without in, empty case bodies ...) x the complete space of 256 Config combinations. distinct_nontrivial = distinct programs (normalised skeletons) round-tripped.",
+		ID:          "C05",
+		Level:       "exploration",
+		Technique:   "runtime monitoring: metamorphic round trip — the tree of an accepted generated program is printed under each of the 256 Configs, the printed bytes are re-read by the real parser, and the normalised skeleton and here-document bodies are compared with the original",
+		Rule:        "a case is an accepted program (generator-derived and confirmed by its expected tree, in single-line and multi-line layouts, with here-documents inside every compound construct; plus 47 dedicated sources: nested subshells, here-documents in conditions/bodies/case items/functions/pipelines/command substitutions, & before then/do, for without in, empty case bodies ...) x the complete space of 256 Config combinations. distinct_nontrivial = distinct programs (normalised skeletons) round-tripped.",
 		Assumptions: []string{"';' and newline are equivalent separators (normalised skeleton); node positions are not compared", "programs the parser rejects or parses differently from the generator's expectation are C02's business and skipped here"},
 		Gen:         prGen("c05"),
 		Replay:      func(c *core.Ctx, raw []byte) { core.ReplayOne(c, raw, c05Exec) },
@@ -498,10 +498,10 @@ func init() {
 		},
 	})
 	core.Register(&core.Engine{
-		ID:        "C18",
-		Level:     "fault_enumeration",
-		Technique: "runtime monitoring: self-comparison (fix-point, repeat, deep dump of the tree before/after Fprint) over 256 Configs, and fault injection at the io.Writer: writers failing after k bytes for every k up to the output length",
-		Rule:      "a case is an accepted program; for each of the 256 Configs: print, dump the tree before/after (every field incl. the separators the printer hides temporarily), print again (determinism), re-parse and print (fix-point). Writer faults: for 8 Configs covering the Then/Do/Redir combinations that edit the tree temporarily, a writer failing after k bytes — every k in [0, len) for a quarter of the programs and all dedicated sources, k in {0,1,len/2,len-1,4095,4096,4097} otherwise, including an output longer than bufio's buffer. distinct_nontrivial = distinct sources completed.",
+		ID:          "C18",
+		Level:       "fault_enumeration",
+		Technique:   "runtime monitoring: self-comparison (fix-point, repeat, deep dump of the tree before/after Fprint) over 256 Configs, and fault injection at the io.Writer: writers failing after k bytes for every k up to the output length",
+		Rule:        "a case is an accepted program; for each of the 256 Configs: print, dump the tree before/after (every field incl. the separators the printer hides temporarily), print again (determinism), re-parse and print (fix-point). Writer faults: for 8 Configs covering the Then/Do/Redir combinations that edit the tree temporarily, a writer failing after k bytes — every k in [0, len) for a quarter of the programs and all dedicated sources, k in {0,1,len/2,len-1,4095,4096,4097} otherwise, including an output longer than bufio's buffer. distinct_nontrivial = distinct sources completed.",
 		Assumptions: []string{"programs whose printed text is rejected or denotes another program are C05's business and skipped here"},
 		Gen:         prGen("c18"),
 		Replay:      func(c *core.Ctx, raw []byte) { core.ReplayOne(c, raw, c18Exec) },
